@@ -186,6 +186,9 @@ def make_converter(ty: IntoConverter, handlers: ConverterHandlers = ConverterHan
     from .converters import LiteralConverter, DictConverter, TupleConverter, ScalarConverter
     from .converters import EnumConverter, DelegateConverter, _BASIC_CONVERTERS, _BASIC_WITH_ARGS
 
+    if ty is None:
+        # (as in `typing`, `None` stands for its type: `(int, None)`, `{'a': None}`)
+        return make_converter(type(None), handlers)
     if ty is t.Any or ty is type(t.Any):
         return AnyConverter(handlers)
     if isinstance(ty, t.TypeVar):
